@@ -128,6 +128,29 @@ def run(ctx):
                "the field only feeds %s" % uses if not bad and not ret else
                "rule.message itself flows into %s%s: the language server publishes the raw template for some matches (unbound `$VAR` stays literal, multi-line messages are not re-indented) "
                "while every CLI front end renders it" % (bad, " and into the returned string" if ret else ""), where=f.loc())
+    # downstream of the funnel: the message a listing carries is get_message's result as it is (no front end trims, truncates, re-wraps it)
+    from ..query import identity_flow
+    n_msg = 0
+    for adt, field in ((r"^ast_grep::print::json_print::RuleMatchJSON$", "message"), (r"^lsp_types::Diagnostic$", "message")):
+        for f, bi, si, st in prog.aggregates_of(adt):
+            if f.impl_trait or not f.crate.startswith("ast_grep"):
+                continue
+            ops = dict(zip(st[2][1]["fields"], st[2][2]))
+            if field not in ops:
+                continue
+            n_msg += 1
+            terms, foreign = identity_flow(prog, f, ops[field], lambda g, o: o.kind == "call" and o.ref.name in ("get_message", "get_non_empty_message"))
+            ok = bool(terms) and not foreign
+            ctx.ob("R2", "%s.%s in %s" % (adt.strip("^$").rsplit("::", 1)[-1], field, f.id), ok,
+                   "the message is the renderer's result as it is" if ok else
+                   "the message listed by this front end is not RuleConfig::get_message's result as it is (passes through %s): its findings differ in text from the other front ends'" % sorted(set(foreign)), where=f.loc(st[3]))
+    ctx.floor("R2", "listings that carry a rendered message", n_msg, 2)
+    for f in prog.find_fns(r"^ast_grep_lsp::utils::get_non_empty_message$"):
+        terms, foreign = identity_flow(prog, f, ["c", [0, []]], lambda g, o: o.kind == "call" and o.ref.name == "get_message")
+        foreign = [x for x in foreign if x not in ("to_string", "must_use", "format", "fmt") and not x.startswith("parameter")]   # the rule id fallback; a raw read of rule.message is the obligation above
+        ok = bool(terms) and not foreign
+        ctx.ob("R2", "get_non_empty_message returns the rendered message or the rule id", ok,
+               "returns get_message(..) as it is (or the rule id when the message is empty)" if ok else "the returned text also comes from %s" % sorted(set(foreign)), where=f.loc())
     if gm:
         renderers = [r"^ast_grep::print::json_print::RuleMatchJSON::<.*>::new$", r"^ast_grep::print::cloud_print::print_rule$", r"^<ast_grep::print::colored_print::ColoredProcessor as .*>::print_rule$",
                      r"^ast_grep_lsp::utils::get_non_empty_message$"]
